@@ -15,6 +15,8 @@ Inductive smd :=
 | SMnone
 | SMset (tbl : list (Z * jv))               (* data["data"] = enc(node.data); return None *)
 | SMwrap (tbl : list (Z * jv))              (* data["data"] = [data["data"], enc(node.data)] *)
+| SMtuple (tbl : list (Z * jv))             (* data["data"] = (data["data"], enc(node.data)): a tuple,
+                                               outside the JSON-able subset *)
 | SMnew (tbl : list (Z * jv)) (keep : bool)  (* return a new dict {"data": enc, "x": 1[, "data_id"]} *)
 | SMextra (tbl : list (Z * jv))             (* data["t"] = enc(node.data), "data" left alone; the
                                                decoder pops item["t"] (pinned-suite style) *)
@@ -41,6 +43,8 @@ Definition sm_of (m : smd) : smapper :=
   | SMset tbl => fun i res => dset k_data (enc_of tbl i) res
   | SMwrap tbl => fun i res =>
       dset k_data (JList [match dget k_data res with Some v => v | None => JNull end; enc_of tbl i]) res
+  | SMtuple tbl => fun i res =>
+      dset k_data (JTuple [match dget k_data res with Some v => v | None => JNull end; enc_of tbl i]) res
   | SMnew tbl keep => fun i res =>
       [(k_data, enc_of tbl i); (k_x, JInt 1)] ++
       (if keep then match dget k_data_id res with Some v => [(k_data_id, v)] | None => [] end else [])
@@ -112,7 +116,8 @@ Definition run14 (c : case) : sx :=
                            | Some t => sx_jv (to_dict sm t)
                            | None => A (-1)
                            end) subs);
-          sx_load (tree_from_dict (dd_for m dt) (Z.to_nat next) dump) ]
+          (* the structure goes through json.dumps / json.loads before from_dict *)
+          sx_load (tree_from_dict (dd_for m dt) (Z.to_nat next) (map json_rt dump)) ]
   | CLoad obj dt next =>
       L [ sx_load (tree_from_dict (dd_of dt) (Z.to_nat next) obj) ]
   | CNode f calc target obj dt next =>
